@@ -47,7 +47,11 @@ def impl_env(extra=None):
     if _TREE is None:
         _TREE = repo_tree_hash()
     env = dict(os.environ)
-    env["PYTHONPATH"] = REPO + os.pathsep + os.path.join(VERIF, "harness")
+    # harness/site/sitecustomize.py re-targets the editable-install finder to VERIF_REPO
+    env["PYTHONPATH"] = os.pathsep.join(
+        [os.path.join(VERIF, "harness", "site"), REPO, os.path.join(VERIF, "harness")]
+    )
+    env["VERIF_REPO"] = REPO
     env["PYTHONHASHSEED"] = "0"
     cache = os.path.join(RUN, "numba", _TREE)
     os.makedirs(cache, exist_ok=True)
